@@ -601,6 +601,23 @@ func (g *sqGen) edit(s *sqSchema) *sqEdit {
 			t.Checks = append(t.Checks, ck)
 			return &sqEdit{"add-check", t.Name, ck.Expr}
 		case 13:
+			if len(t.Uniques) > 0 && !referenced(s, t.Name) && len(selfRefs(t)) == 0 && g.r.Chance(1, 2) {
+				// the inline UNIQUE constraint is replaced by an index that carries the name Atlas itself would
+				// give the constraint's auto-index (<table>_<columns>) but another definition
+				u := t.Uniques[0]
+				t.Uniques = t.Uniques[1:]
+				ix := sqIdx{Name: t.Name + "_" + strings.Join(u, "_")}
+				if g.r.Chance(1, 2) {
+					for _, c := range u {
+						ix.Parts = append(ix.Parts, sqPart{Col: c})
+					}
+				} else {
+					ix.Unique = true
+					ix.Parts = []sqPart{{Col: "id"}}
+				}
+				t.Idxs = append(t.Idxs, ix)
+				return &sqEdit{"unique-constraint-to-conventionally-named-index", t.Name, ix.Name}
+			}
 			if g.r.Chance(1, 3) {
 				if len(t.Uniques) > 0 && !referenced(s, t.Name) && len(selfRefs(t)) == 0 {
 					t.Uniques = t.Uniques[1:]
